@@ -730,6 +730,9 @@ class BaseOutlineCompiler:
             # the spec says that 0xFFFF should be used
             # as the max if the max exceeds 0xFFFF
             maxIndex = 0xFFFF
+        if minIndex > 0xFFFF:
+            # same for the min, when all the code points are beyond the BMP
+            minIndex = 0xFFFF
         os2.fsFirstCharIndex = minIndex
         os2.fsLastCharIndex = maxIndex
         os2.usBreakChar = 32
